@@ -137,7 +137,8 @@ def _bfs_edges_rust(
             return Result(list(result["path"]), len(result["path"]) - 1, result["iterations"], 0)
         return Result(None, float("inf"), result["iterations"], 0, Status.INFEASIBLE)
 
-    return Result(list(result["visited_order"]), 0, result["iterations"], 0)
+    # Same contract as the Python backend: the reachable nodes as a sorted list
+    return Result(sorted(result["visited_order"]), 0, result["iterations"], 0)
 
 
 @rust_adapter("dfs_edges")
@@ -155,10 +156,11 @@ def _dfs_edges_rust(
 
     if target is not None:
         if result["target_reached"]:
-            return Result(list(result["path"]), len(result["path"]) - 1, result["iterations"], 0)
+            # A DFS path is a path, not a shortest one: FEASIBLE, as in the Python backend
+            return Result(list(result["path"]), len(result["path"]) - 1, result["iterations"], 0, Status.FEASIBLE)
         return Result(None, float("inf"), result["iterations"], 0, Status.INFEASIBLE)
 
-    return Result(list(result["visited_order"]), 0, result["iterations"], 0)
+    return Result(sorted(result["visited_order"]), 0, result["iterations"], 0)
 
 
 @rust_adapter("pagerank_edges")
